@@ -417,7 +417,13 @@ fn one_run(seed: u64, run: u64, max_positions: usize) -> RunResult {
     let knobs = random_knobs(&mut rng);
     if run % 10 == 9 {
         // nested syntax definitions in failing forms
-        let f = if run % 20 == 9 { macro_leak_case(&mut rng, run) } else { unbound_then_defined_case(&mut rng, run) };
+        let f = if run % 20 == 9 {
+            macro_leak_case(&mut rng, run)
+        } else if run % 40 == 19 {
+            keyword_formal_case(&mut rng, run)
+        } else {
+            unbound_then_defined_case(&mut rng, run)
+        };
         let mut case = Case::new(vec![]);
         case.knobs = knobs;
         let mut res = RunResult {
@@ -632,6 +638,36 @@ fn macro_leak_case(rng: &mut Rng, run: u64) -> Faulted {
         vm_texts: texts,
         twin_forms: ref_forms,
         kind,
+    }
+}
+
+/// A form that is rejected while it is being expanded, inside a lambda (or a let-family form)
+/// one of whose variables is named like a derived-form keyword; afterwards every derived form
+/// must still work. No fault is injected: the failure is the program's own.
+fn keyword_formal_case(rng: &mut Rng, _run: u64) -> Faulted {
+    let kw = *rng.pick(&["when", "unless", "cond", "and", "or", "case", "let*", "begin"]);
+    let bad = *rng.pick(&["(cond)", "(when)", "(let ((z)) z)", "(let* (q) q)", "(case)"]);
+    let failing = match rng.below(4) {
+        0 => format!("((lambda (x {kw}) {bad}) 1 2)", kw = kw, bad = bad),
+        1 => format!("(let ((v 1)) ((lambda ({kw}) (list v {bad})) 5))", kw = kw, bad = bad),
+        2 => format!("(define (uses-{kw}-name {kw}) (if {kw} {bad} 'no))", kw = kw, bad = bad),
+        _ => format!("(let loop ((i 0) ({kw} 5)) (if (< i 1) (loop (+ i 1) {bad}) i))", kw = kw, bad = bad),
+    };
+    let mut texts: Vec<String> = setup_forms().iter().map(|f| f.text()).collect();
+    texts.push("(when #t 7)".into());
+    texts.push(failing.clone());
+    if rng.chance(1, 2) {
+        texts.push(failing);
+    }
+    texts.push("(list (when #t 7) (unless #f 8) (cond (#f 1) (else 9)) (and 1 2) (or #f 3) (case 2 ((1) 'a) ((2) 'b) (else 'c)) (let* ((a 1) (b (+ a 1))) b) (begin 1 2))".into());
+    texts.push("(let loop ((i 0) (acc '())) (if (< i 3) (loop (+ i 1) (cons (when (> i 0) i) acc)) acc))".into());
+    texts.push("(%probe-deep 1 5)".into());
+    let forms: Vec<Sx> = texts.iter().map(|t| read_one(t).expect("template reads")).collect();
+    Faulted {
+        ref_forms: forms.clone(),
+        vm_texts: texts,
+        twin_forms: forms,
+        kind: FaultKind::MacroSyntax,
     }
 }
 
